@@ -18,19 +18,19 @@ type State struct {
 	regs   map[ssa.Value]Value
 	defers []*ssa.Defer
 	// loop bookkeeping: measure recorded at the head on entry (per head block index)
-	measure map[int]string
-	inLoop  map[int]bool
-	trace   []string // human readable path description (block indices)
-	depth   int
-	epoch   string // non-empty after a havoc-everything: maps first read later get epoch constants
+	measure       map[int]string
+	inLoop        map[int]bool
+	trace         []string // human readable path description (block indices)
+	depth         int
+	epoch         string // non-empty after a havoc-everything: maps first read later get epoch constants
 	unknownWrites bool
 	// frame checkpoints: after a call of a callback parameter (whose effects are accounted for at
 	// the call site of the higher-order function) own writes are measured against these versions
 	frameBase map[string]string
-	cands []string // candidate integer terms for ground instantiation of hypotheses
+	cands     []string        // candidate integer terms for ground instantiation of hypotheses
 	epochKeep map[string]bool // heap maps exempt from every havoc-everything so far (callback preserves)
-	lens  []string // lengths of append prefixes seen on the path (offsets for instantiation candidates)
-	loopEntry map[int]*State // heap view at the entry of each loop (by ordinal)
+	lens      []string        // lengths of append prefixes seen on the path (offsets for instantiation candidates)
+	loopEntry map[int]*State  // heap view at the entry of each loop (by ordinal)
 }
 
 func (s *State) addLen(t string) {
@@ -64,22 +64,22 @@ func (s *State) addCand(t string) {
 
 func (s *State) clone() *State {
 	n := &State{
-		heap:    make(map[string]string, len(s.heap)),
-		hsort:   s.hsort, // shared (monotone)
-		alloc:   s.alloc,
-		pc:      append([]string(nil), s.pc...),
-		regs:    make(map[ssa.Value]Value, len(s.regs)),
-		defers:  append([]*ssa.Defer(nil), s.defers...),
-		measure: map[int]string{},
-		inLoop:  map[int]bool{},
-		trace:   append([]string(nil), s.trace...),
-		depth:   s.depth,
-		epoch:   s.epoch,
+		heap:          make(map[string]string, len(s.heap)),
+		hsort:         s.hsort, // shared (monotone)
+		alloc:         s.alloc,
+		pc:            append([]string(nil), s.pc...),
+		regs:          make(map[ssa.Value]Value, len(s.regs)),
+		defers:        append([]*ssa.Defer(nil), s.defers...),
+		measure:       map[int]string{},
+		inLoop:        map[int]bool{},
+		trace:         append([]string(nil), s.trace...),
+		depth:         s.depth,
+		epoch:         s.epoch,
 		unknownWrites: s.unknownWrites,
-		cands: append([]string(nil), s.cands...),
-		loopEntry: map[int]*State{},
-		lens: append([]string(nil), s.lens...),
-		epochKeep: s.epochKeep,
+		cands:         append([]string(nil), s.cands...),
+		loopEntry:     map[int]*State{},
+		lens:          append([]string(nil), s.lens...),
+		epochKeep:     s.epochKeep,
 	}
 	if s.frameBase != nil {
 		n.frameBase = make(map[string]string, len(s.frameBase))
@@ -131,11 +131,11 @@ type Env struct {
 	init map[string]string
 	// mapTypes records, per heap map, the Go type of its values and its shape ("field", "elem",
 	// "cell"), so that every unconstrained version of the map can be given its type invariant.
-	mapTypes map[string]mapType
-	ownedMaps map[string]bool // heap map names of owned slice fields
-	rec      *[]string       // when non-nil: names of heap maps read (footprint recording)
-	revealed map[string]bool // opaque spec predicates revealed in the function being verified
-	rangeKeySort string    // key sort of the map range of the function being verified (spec: rangevisited)
+	mapTypes     map[string]mapType
+	ownedMaps    map[string]bool // heap map names of owned slice fields
+	rec          *[]string       // when non-nil: names of heap maps read (footprint recording)
+	revealed     map[string]bool // opaque spec predicates revealed in the function being verified
+	rangeKeySort string          // key sort of the map range of the function being verified (spec: rangevisited)
 }
 
 type mapType struct {
